@@ -292,7 +292,9 @@ impl<D: Distance> Writer<D> {
             while let Some((item_id, node)) = cursor.next().transpose()? {
                 match node {
                     Node::Leaf(Leaf { header: _, vector }) => {
-                        let vector = vector.to_vec();
+                        let mut vector = vector.to_vec();
+                        // The previous codec may have padded the vector (binary quantization)
+                        vector.truncate(self.dimensions);
                         let vector = UnalignedVector::from_vec(vector);
                         let new_leaf = Node::Leaf(Leaf { header: ND::new_header(&vector), vector });
                         unsafe {
